@@ -26,6 +26,8 @@ def obsStep (s : St) (a : Act) (s' : St) : List Ev :=
   | .objectHandler c => [Ev.authority c (s'.chk c).schedulable, locOf s' c]    -- its handler has run
   | .nextCheckChanged c => [locOf s' c]
   | .helperFinish c => [locOf s' c]
+  -- `ExecuteCheck` has returned: unless an outside party wrote next_check since the dispatch, the observer compares it with the dispatch time
+  | .helperDec c => if (s.chk c).foreign then [] else [Ev.rearmed c (s.chk c).dispatchedAt (s.chk c).nextCheck]
   | _ => []
 
 /-- nothing is in flight anywhere -/
